@@ -94,6 +94,14 @@ def run_extract():
         rep = json.loads(out.strip().splitlines()[-1])
     except Exception:
         rep = {"raw": out[-2000:]}
+    # the two other translators: listener dereference sites (go/ast) and the shipped Java grammar (.g4 -> Rx)
+    rc2, out2 = sh([os.path.join(HARNESS, "bin", "navsites"), REPO, os.path.join(LEAN, "CocaVerif", "Gen")], cwd=HARNESS)
+    rc3, out3 = sh([sys.executable, os.path.join(VERIF, "vlib", "g4lean.py"), REPO, os.path.join(LEAN, "CocaVerif", "Gen", "JavaGrammar.lean")], cwd=VERIF)
+    rep["navsites"] = out2.strip()[-200:]
+    rep["grammar"] = out3.strip()[-200:]
+    if rc2 != 0 or rc3 != 0:
+        rep.setdefault("stale", [])
+        rep["stale"] = (rep.get("stale") or []) + ["Nav.translators (navsites rc=%s, g4lean rc=%s)" % (rc2, rc3)]
     return rc == 0, rep
 
 
